@@ -17,6 +17,16 @@ CHECKS = {
              "precision and restricted to |x|<1e30.",
         technique="round-trip property testing with Hypothesis-generated structures and a field-by-field snapshot oracle",
     ),
+    "C05": dict(
+        category="exploration",
+        text="Model-based stateful testing: generated edit histories (<=40 ops: add/new/del atom by object, index, label, Element; connect; append_bond(s)/extend_bonds "
+             "with foreign atoms; del_bond; remove_substituent; add_implicit_hydrogens; substructure writes) are interpreted on Molecule and Structure and on an "
+             "identity-keyed reference model, invariants after every step; plus ALL op sequences up to length 3/4 over an 18-letter alphabet. The statement quantifies "
+             "over histories, which a model-based interpreter explores directly.",
+        design_ref="DESIGN.md section 5, C05",
+        note="No parallel bonds / self loops; unique labels for by-label deletion; remove_substituent on bridge bonds only; Conformer edits are C14's.",
+        technique="stateful model-based testing (Hypothesis op lists + bounded-exhaustive sequences) with per-step invariants",
+    ),
     "C02": dict(
         category="exploration",
         text="Bounded-exhaustive (all op sequences up to length 4/5 over a 14-letter alphabet on two raw UKVFile handles) plus random "
